@@ -1223,3 +1223,16 @@ package zygo
 //@ func (SymtabSorter).Less
 //@ C20 pure
 //@ C20 ensures orders-by-key-itself: r0 == (a[i].Key < a[j].Key)
+
+// C15: a compound template (array, hash, proper list) is always rebuilt by the code
+// compiled for it, so every evaluation yields a new object; only atoms (and dotted pairs)
+// are pushed as they stand. Pushing the template's own array would make all evaluations
+// share, and mutate, the source of the template.
+//@ spec properList(e Sexp) bool = ?
+//@ func IsList
+//@ assume pure
+//@ assume ensures r0 == properList(expr)
+//@ func (*Generator).generateSyntaxQuoteArg
+//@ C15 assert compound-templates-are-rebuilt @before call AddInstruction[*]: typeis(arg1, PushInstr) ==> !typeis(arg1.(PushInstr).expr, *SexpArray) && !typeis(arg1.(PushInstr).expr, *SexpHash) && !(typeis(arg1.(PushInstr).expr, *SexpPair) && properList(arg1.(PushInstr).expr))
+//@ func (*Generator).GenerateSyntaxQuote
+//@ C15 assert compound-templates-are-rebuilt @before call AddInstruction[*]: typeis(arg1, PushInstr) ==> !typeis(arg1.(PushInstr).expr, *SexpArray) && !typeis(arg1.(PushInstr).expr, *SexpHash) && !(typeis(arg1.(PushInstr).expr, *SexpPair) && properList(arg1.(PushInstr).expr))
